@@ -691,7 +691,7 @@ func (fg *FuncGen) appendOp(v *ssa.Call, c *ssa.CallCommon) {
 		fg.counters["frame"]++
 		o := &Obligation{Name: fmt.Sprintf("%s/frame.%d", shortKey(fg.key), fg.counters["frame"]), Kind: "frame", Func: fg.key, Tags: []string{"C06", "C07"},
 			Guard: fg.curReach, Goal: fmt.Sprintf("(or (>= (sref %s) %s) (= (slen %s) (scap %s)))", s.S, fg.wm0, s.S, s.S), Pos: fg.g.pos(v.Pos()),
-			Text: "append target is owned by this call or has no spare capacity", Expect: "unsat", Params: fg.paramConsts, Block: fg.segIdx}
+			Text: "append target is owned by this call or has no spare capacity", Expect: "unsat", Params: fg.paramConsts, Block: fg.segIdx, Via: -1}
 		fg.obls = append(fg.obls, o)
 	}
 	f := g.SeqFamily(es)
@@ -721,6 +721,7 @@ func (fg *FuncGen) appendOp(v *ssa.Call, c *ssa.CallCommon) {
 			}
 		} else {
 			fg.emit("(assert (forall ((i Int)) (! (=> (and (<= 0 i) (< i (slen %s))) (= (gat %s %s (+ (slen %s) i)) (gat %s %s i))) :pattern ((gat %s %s i)))))", t.S, sym, r.S, s.S, before, t.S, before, t.S)
+			fg.emit("(assert (forall ((j Int)) (! (=> (and (<= (slen %s) j) (< j (+ (slen %s) (slen %s)))) (= (gat %s %s j) (gat %s %s (- j (slen %s))))) :pattern ((gat %s %s j)))))", s.S, s.S, t.S, sym, r.S, before, t.S, s.S, sym, r.S)
 			fg.emit("(assert (=> (< 0 (slen %s)) (= (gat %s %s (slen %s)) (gat %s %s 0))))", t.S, sym, r.S, s.S, before, t.S)
 		}
 	} else {
